@@ -968,6 +968,10 @@ class Engine:
         if ta is tuple:
             if type(b) is not tuple or len(a) != len(b):
                 raise MergeFail("tuple shape")
+            if tid is not None and tid.startswith("zz:") and tid not in self.ir.types:
+                if a == b:
+                    return a
+                raise MergeFail("model object %s differs" % tid)
             u = self.ir.under(tid) if tid is not None else None
             if u is not None and u["k"] == "struct" and len(u["fields"]) == len(a):
                 fs = u["fields"]
@@ -2078,7 +2082,7 @@ class Engine:
             return True
         if z3.is_bv_value(a) and z3.is_bv_value(b):
             return a.as_long() == b.as_long()
-        if depth > 40:
+        if depth > 200:
             return simp(a == b)
         key = (a.get_id(), b.get_id())
         r = self._heq_cache.get(key)
